@@ -129,6 +129,8 @@ def _install(rec):
         rec.created[id(self)] = {
             "who": who, "design": [rec.fid(f) for f in design], "crossings": [[rec.fid(f) for f in c] for c in crossings],
             "sustains": list(crossing_sustain_counts), "weights": list(crossing_weights),
+            # "constraints": the constraints as they are at the call (a snapshot: class, parameter, within_block geometry);
+            # "constraint_objs": the objects handed over (_create copies them; they must never change afterwards)
             "constraints": [rec.cinfo(c) for c in constraints], "constraint_objs": list(constraints),
             "rcc": bool(require_complete_crossing), "mode": m, "alignment": a}
         rec.last = rec.created[id(self)]
@@ -359,6 +361,32 @@ def createflat_observation(rec, st, blk):
            r["rcc"], _A(r["mode"]), _A(al), excl, derivs, frec[13], frec[15]]
     expected = "(ok %s)" % to_wire(_sorted_geoms(frec)) if same_design else "(error unsupported)"
     return "(createflat %s)" % to_wire(inp), expected
+
+
+def created_observation(rec, st, blk):
+    """(model line, expected, handed objects unchanged): Front/Create.v `created_constraints` on the constraints as they were when
+    they were handed to `_create` (the recorder's snapshot) and the real block's `get_geometry(0)`, vs the real block's
+    `orig_constraints` after construction.  `_create` works on private copies: the objects handed over must read afterwards as
+    they did at the call (third component)."""
+    r = st["recorded"]
+    with ir.quiet():
+        g = blk.get_geometry(0)
+    line = "(created %s %s)" % (to_wire(rec.geom(g)), to_wire(r["constraints"]))
+    real = [rec.cinfo(c) for c in blk.orig_constraints]
+    expected = " ".join(canon_cinfo(ci) for ci in real)
+    unchanged = all(canon_cinfo(rec.cinfo(obj)) == canon_cinfo(ci) for obj, ci in zip(r["constraint_objs"], r["constraints"]))
+    return line, expected, unchanged
+
+
+def canon_cinfo(ci):
+    return "(%d %s %d %s)" % (ci[0], ci[1].s if ci[1].s in KINDS else "Other", ci[2], canon_geom(ci[3]))
+
+
+def model_created_view(out):
+    """the model's answer to `created` in the rendering of `created_observation`"""
+    from common import parse_sexp
+    r = parse_sexp(out)[0]
+    return " ".join("(%d %s %d %s)" % (cid, kind, param, canon_geom(wb)) for cid, kind, param, wb in r)
 
 
 def inputok_line(createflat_line):
